@@ -3,7 +3,7 @@
 caught-json: {"C01": "caught quick (kind roundtrip, 70 cases)", ...}"""
 import json, os, shutil, sys
 id_, k, name, caught = sys.argv[1], sys.argv[2], sys.argv[3], json.loads(sys.argv[4])
-src = f"/tmp/seed-out/{id_}/{k}"
+src = f"{os.environ.get('SEED_OUT', '/tmp/seed-out')}/{id_}/{k}"
 dst = f"/verif/seeded/{name}"
 os.makedirs(dst, exist_ok=True)
 for f in ("patch.diff", "demo.py", "notes.md"):
